@@ -11,7 +11,8 @@
 
 Transportation1dSorter::Transportation1dSorter(
     const std::vector<long long> &u, const std::vector<long long> &v,
-    const std::vector<long long> &s, const std::vector<long long> &d) {
+    const std::vector<long long> &s, const std::vector<long long> &d)
+    : nbSources_(u.size()) {
   // Sort the sources and sinks
   std::vector<std::pair<long long, long long>> srcSort;
   srcSort.reserve(u.size());
@@ -71,8 +72,9 @@ Transportation1dSorter::Solution Transportation1dSorter::convertSolutionBack(
 
 std::vector<int> Transportation1dSorter::convertAssignmentBack(
     const std::vector<int> &a) const {
-  std::vector<int> ret;
-  ret.resize(a.size());
+  // Sources without supply are not part of the sorted problem: they get the
+  // first sink with some demand
+  std::vector<int> ret(nbSources_, snkOrder.empty() ? 0 : snkOrder.front());
   for (size_t i = 0; i < a.size(); ++i) {
     ret[srcOrder[i]] = snkOrder[a[i]];
   }
